@@ -311,7 +311,8 @@ class C16(Check):
             'readers\' handles and the in-memory .code-decompressed x orders {reader close then tell then read; reader close then '
             'read; every handle read twice (caches warm) then reader close then read; handle close then sibling use then reader use; '
             'double closes; nested reader close}; constructors that RAISE (garbage, truncated input, no key material for the engine) on a '
-            'caller-supplied file object x closefd; random longer interleavings '
+            'caller-supplied file object x closefd; paths spelled as str / bytes / pathlib.Path; every handle or wrapper first given a call that is '
+            'rightly refused (negative seek, bad whence); filesystem objects handed in as fs= must stay open; random longer interleavings '
             'on top; observables: ValueError or not per call, closed flag of the file; non-trivial = always')
     trusted_base = [
         'Lean 4.33 kernel; axioms propext, Classical.choice, Quot.sound only',
